@@ -140,6 +140,11 @@ def judge(part, case, resps, ctx):
                        {"module": "c02", "backend": b, "ty": ty, "case": case, "resps": resps})
 
     ab, ba, nat = r["ab"], r["ba"], r["nat"]
+    if "aa" in r:
+        # a compared with itself through references to the same object: the amount type's own answers
+        for k, val in r["aa"].items():
+            if val != r["nat_aa"][k]:
+                viol("self_cmp", "a %s a (the same object) is %s, the amount type's own answer is %s" % (k, val, r["nat_aa"][k]))
     if b == "f64" and (f64_is_nan(case["x"]) or f64_is_nan(case["y"])):
         # the statement speaks about NaN only through "reduce to the amount type's own comparison when the units are equal"
         if u != v:
